@@ -365,6 +365,12 @@ def generated_models():
         'self-ref': [('tA', 'tA', [])], 'ref-cycle2': [('tA', 'tB', []), ('tB', 'tA', [])], 'component-cycle': [('tA', None, [('c', 'tA')])],
         'component-cycle2': [('tA', None, [('c', 'tB')]), ('tB', None, [('c', 'tA')])], 'missing-ref': [('tA', 'tNowhere', [])], 'ok-ref': [('tA', 'number', []), ('tB', 'tA', [])],
     }
+    # the same references written with white space around the name (the text of <typeRef> on its own line): whatever the builders make of the padded
+    # text, the cycle search must make the same of it (seeded change C12_h: the builders trimmed it, the cycle search did not)
+    for k in ('self-ref', 'ref-cycle2', 'component-cycle', 'component-cycle2', 'ok-ref'):
+        pad = lambda r, i: r if r in (None, 'number') else [' %s', '%s ', '\n      %s\n    ', '\t%s'][i % 4] % r
+        for v in (0, 1, 2):
+            shapes['%s-padded%d' % (k, v)] = [(n, pad(r, v + j) if (v < 2 or j == 0) else r, [(c, pad(cr, v + j)) for c, cr in comps]) for j, (n, r, comps) in enumerate(shapes[k])]
     for name, shape in shapes.items():
         body = gen_item_defs(shape) + '  <inputData name="i1" id="_i1"><variable name="i1" typeRef="tA"/></inputData>\n'
         body += '  <decision name="d0" id="_d0"><variable name="d0" typeRef="tA"/><informationRequirement id="_r"><requiredInput href="#_i1"/></informationRequirement><literalExpression><text>i1</text></literalExpression></decision>\n'
